@@ -353,6 +353,6 @@ Qed.
 
 Lemma l_empty_items l : l_empty l = true <-> litems l = [].
 Proof.
-  unfold l_empty, l_len, sm_len, litems. destruct (items (txs l)); cbn [length]; split; intro H; auto; try discriminate.
-  apply N.eqb_eq in H. lia.
+  unfold l_empty, l_len, sm_len, litems. destruct (items (txs l)); cbn [length]; split; intro H; auto; try discriminate;
+    try (apply N.eqb_eq in H; lia).
 Qed.
